@@ -71,98 +71,139 @@ Qed.
 
 Lemma refl_id n i : 0 <= i < n -> refl n i = i.
 Proof. intros. unfold refl. destruct (Z.ltb_spec i 0); [lia|]. destruct (Z.ltb_spec i n); lia. Qed.
-
 Lemma refl_range n i : 1 <= n -> - n < i < 2 * n - 1 -> 0 <= refl n i < n.
 Proof. intros. unfold refl. destruct (Z.ltb_spec i 0); [lia|]. destruct (Z.ltb_spec i n); lia. Qed.
+Lemma edge_id n i : 0 <= i < n -> edge n i = i.
+Proof. intros. unfold edge. lia. Qed.
+Lemma edge_range n i : 1 <= n -> 0 <= edge n i < n.
+Proof. intros. unfold edge. lia. Qed.
+Lemma src_index_id m n i : 0 <= i < n -> src_index m n i = i.
+Proof. intros. destruct m; cbn [src_index]; [apply refl_id|apply edge_id]; assumption. Qed.
 
-(* result of the repaired function whenever ReflectionPad2d accepts the amounts *)
-Lemma pad_defined {V} h w n (img : Z -> Z -> V) : 0 <= n -> 1 <= h -> 1 <= w ->
-  2 ^ n < 2 * h -> 2 ^ n < 2 * w ->
-  exists f, pad_image_for_pyramid h w n img = Some ((h + pad_amount h n, w + pad_amount w n), f) /\
-    (forall i j, 0 <= i < h -> 0 <= j < w -> f i j = img i j) /\
-    (forall i j, 0 <= i < h + pad_amount h n -> 0 <= j < w + pad_amount w n ->
-       exists i' j', 0 <= i' < h /\ 0 <= j' < w /\ f i j = img i' j').
+Lemma reflect_ok_iff h w n : 0 <= n -> 1 <= h -> 1 <= w -> (reflect_ok h w n = true <-> 2 ^ n < 2 * h /\ 2 ^ n < 2 * w).
 Proof.
-  intros Hn Hh Hw Lh Lw.
-  pose proof (pad_multiple h n Hn) as [_ [Rh _]]. pose proof (pad_multiple w n Hn) as [_ [Rw _]].
-  apply (pad_amount_lt_iff h n Hn Hh) in Lh. apply (pad_amount_lt_iff w n Hn Hw) in Lw.
-  unfold pad_image_for_pyramid, pad_with. destruct (needs_pad h w n) eqn:Enp.
-  - unfold reflection_pad2d, pad_tuple.
-    replace ((0 <=? 0) && (0 <=? pad_amount w n) && (0 <=? 0) && (0 <=? pad_amount h n) && (0 <? w)
-             && (pad_amount w n <? w) && (0 <? h) && (pad_amount h n <? h)) with true.
-    2:{ symmetry. rewrite !andb_true_iff, !Z.leb_le, !Z.ltb_lt. lia. }
-    replace (h + 0 + pad_amount h n) with (h + pad_amount h n) by ring.
-    replace (w + 0 + pad_amount w n) with (w + pad_amount w n) by ring.
-    eexists. split; [reflexivity|]. split.
-    + intros i j Hi Hj. rewrite !Z.sub_0_r, !refl_id by lia. reflexivity.
-    + intros i j Hi Hj. rewrite !Z.sub_0_r. exists (refl h i), (refl w j).
-      split; [apply refl_range; lia|]. split; [apply refl_range; lia|]. reflexivity.
-  - apply (needs_pad_false_iff h w n Hn) in Enp. destruct Enp as [Eh Ew].
-    apply (pad_amount_zero_iff h n Hn) in Eh. apply (pad_amount_zero_iff w n Hn) in Ew.
-    rewrite Eh, Ew, !Z.add_0_r. exists img. split; [reflexivity|]. split; [reflexivity|].
-    intros i j Hi Hj. exists i, j. auto.
+  intros Hn Hh Hw. unfold reflect_ok. rewrite andb_true_iff, !Z.ltb_lt.
+  rewrite (pad_amount_lt_iff h n Hn Hh), (pad_amount_lt_iff w n Hn Hw). tauto.
 Qed.
 
-(* clause 1: both sides become multiples of 2^n (the least ones) *)
-Lemma pad_result_multiple {V} h w n (img : Z -> Z -> V) H W f : 0 <= n ->
-  pad_image_for_pyramid h w n img = Some ((H, W), f) ->
+(* ---------- the clauses of the property, for ANY content of the added border *)
+Lemma generic_multiple {V} (border : Z -> Z -> V) h w n img : 0 <= n ->
+  let '((H, W), _) := pad_generic border h w n img in
   H mod 2 ^ n = 0 /\ W mod 2 ^ n = 0 /\ h <= H < h + 2 ^ n /\ w <= W < w + 2 ^ n.
 Proof.
   intros Hn. pose proof (pad_multiple h n Hn) as [Mh [Rh _]]. pose proof (pad_multiple w n Hn) as [Mw [Rw _]].
-  unfold pad_image_for_pyramid, pad_with. destruct (needs_pad h w n) eqn:Enp.
-  - unfold reflection_pad2d, pad_tuple.
-    destruct ((0 <=? 0) && (0 <=? pad_amount w n) && (0 <=? 0) && (0 <=? pad_amount h n) && (0 <? w)
-              && (pad_amount w n <? w) && (0 <? h) && (pad_amount h n <? h)); [|discriminate].
-    intros E. injection E as EH EW _. subst H W.
-    replace (h + 0 + pad_amount h n) with (h + pad_amount h n) by ring.
-    replace (w + 0 + pad_amount w n) with (w + pad_amount w n) by ring. repeat split; try assumption; lia.
-  - intros E. injection E as EH EW _. subst H W.
-    apply (needs_pad_false_iff h w n Hn) in Enp. pose proof (pow_pos n Hn). repeat split; try tauto; lia.
+  unfold pad_generic. destruct (needs_pad h w n) eqn:Enp.
+  - repeat split; try assumption; lia.
+  - apply (needs_pad_false_iff h w n Hn) in Enp. pose proof (pow_pos n Hn). repeat split; try tauto; lia.
 Qed.
-
-(* clause 2: the original pixels stay where they were *)
-Lemma pad_keeps_origin {V} h w n (img : Z -> Z -> V) S f :
-  pad_image_for_pyramid h w n img = Some (S, f) ->
-  forall i j, 0 <= i < h -> 0 <= j < w -> f i j = img i j.
+Lemma generic_keeps_origin {V} (border : Z -> Z -> V) h w n img :
+  forall i j, 0 <= i < h -> 0 <= j < w -> snd (pad_generic border h w n img) i j = img i j.
 Proof.
-  unfold pad_image_for_pyramid, pad_with. destruct (needs_pad h w n).
-  - unfold reflection_pad2d, pad_tuple.
-    destruct ((0 <=? 0) && (0 <=? pad_amount w n) && (0 <=? 0) && (0 <=? pad_amount h n) && (0 <? w)
-              && (pad_amount w n <? w) && (0 <? h) && (pad_amount h n <? h)); [|discriminate].
-    intros E. injection E as _ Ef. subst f. intros i j Hi Hj. rewrite !Z.sub_0_r, !refl_id by lia. reflexivity.
-  - intros E. injection E as _ Ef. subst f. reflexivity.
+  intros i j Hi Hj. unfold pad_generic. destruct (needs_pad h w n); cbn [snd]; [|reflexivity].
+  destruct (Z.ltb_spec i h); [|lia]. destruct (Z.ltb_spec j w); [|lia]. reflexivity.
 Qed.
-
-(* clause 3: images that already fit are returned unchanged (same size, same function) *)
-Lemma pad_noop {V} h w n (img : Z -> Z -> V) : 0 <= n -> h mod 2 ^ n = 0 -> w mod 2 ^ n = 0 ->
-  pad_image_for_pyramid h w n img = Some ((h, w), img).
+Lemma generic_noop {V} (border : Z -> Z -> V) h w n img : 0 <= n -> h mod 2 ^ n = 0 -> w mod 2 ^ n = 0 ->
+  pad_generic border h w n img = ((h, w), img).
 Proof.
-  intros Hn Eh Ew. unfold pad_image_for_pyramid, pad_with.
-  replace (needs_pad h w n) with false; [reflexivity|].
+  intros Hn Eh Ew. unfold pad_generic. replace (needs_pad h w n) with false; [reflexivity|].
   symmetry. apply needs_pad_false_iff; auto.
 Qed.
 
-(* exactly when it raises (open finding: image side <= 2^(n-1)) *)
-Lemma pad_defined_iff {V} h w n (img : Z -> Z -> V) : 0 <= n -> 1 <= h -> 1 <= w ->
-  (pad_image_for_pyramid h w n img <> None <-> 2 ^ n < 2 * h /\ 2 ^ n < 2 * w).
+(* ---------- the code (reflect, or replicate where reflection is impossible) is such a padding *)
+Lemma code_is_generic {V} h w n (img : Z -> Z -> V) :
+  fst (pad_image_for_pyramid h w n img) = fst (pad_generic (snd (pad_image_for_pyramid h w n img)) h w n img) /\
+  forall i j, 0 <= i -> 0 <= j ->
+    snd (pad_image_for_pyramid h w n img) i j = snd (pad_generic (snd (pad_image_for_pyramid h w n img)) h w n img) i j.
 Proof.
-  intros Hn Hh Hw. split.
-  - intros Hne. unfold pad_image_for_pyramid, pad_with in Hne. destruct (needs_pad h w n) eqn:Enp.
-    + unfold reflection_pad2d, pad_tuple in Hne.
-      destruct ((0 <=? 0) && (0 <=? pad_amount w n) && (0 <=? 0) && (0 <=? pad_amount h n) && (0 <? w)
-              && (pad_amount w n <? w) && (0 <? h) && (pad_amount h n <? h)) eqn:E; [|congruence].
-      rewrite !andb_true_iff, !Z.ltb_lt in E.
-      split; [apply (pad_amount_lt_iff h n Hn Hh)|apply (pad_amount_lt_iff w n Hn Hw)]; tauto.
-    + apply (needs_pad_false_iff h w n Hn) in Enp. destruct Enp as [Eh Ew].
-      pose proof (pow_pos n Hn).
-      apply Z.mod_divide in Eh; [|lia]. apply Z.mod_divide in Ew; [|lia].
-      destruct Eh as [a ->]. destruct Ew as [b ->].
-      set (P := 2 ^ n) in *. assert (1 <= a) by nia. assert (1 <= b) by nia. split; nia.
-  - intros [Lh Lw]. destruct (pad_defined h w n img Hn Hh Hw Lh Lw) as [f [E _]]. rewrite E. discriminate.
+  unfold pad_image_for_pyramid, pad_generic. destruct (needs_pad h w n); cbn [fst snd]; split; try reflexivity.
+  intros i j Hi Hj. destruct (Z.ltb_spec i h); destruct (Z.ltb_spec j w); cbn [andb]; try reflexivity.
+  rewrite !src_index_id by lia. reflexivity.
 Qed.
 
-Lemma pad_raises_witness : pad_image_for_pyramid 1 1 1 (fun _ _ => 0) = None.
-Proof. vm_compute. reflexivity. Qed.
+Lemma pad_result_multiple {V} h w n (img : Z -> Z -> V) : 0 <= n ->
+  let '((H, W), _) := pad_image_for_pyramid h w n img in
+  H mod 2 ^ n = 0 /\ W mod 2 ^ n = 0 /\ h <= H < h + 2 ^ n /\ w <= W < w + 2 ^ n.
+Proof.
+  intros Hn. pose proof (pad_multiple h n Hn) as [Mh [Rh _]]. pose proof (pad_multiple w n Hn) as [Mw [Rw _]].
+  unfold pad_image_for_pyramid. destruct (needs_pad h w n) eqn:Enp.
+  - repeat split; try assumption; lia.
+  - apply (needs_pad_false_iff h w n Hn) in Enp. pose proof (pow_pos n Hn). repeat split; try tauto; lia.
+Qed.
+
+Lemma pad_keeps_origin {V} h w n (img : Z -> Z -> V) :
+  forall i j, 0 <= i < h -> 0 <= j < w -> snd (pad_image_for_pyramid h w n img) i j = img i j.
+Proof.
+  intros i j Hi Hj. unfold pad_image_for_pyramid. destruct (needs_pad h w n); cbn [snd]; [|reflexivity].
+  rewrite !src_index_id by lia. reflexivity.
+Qed.
+
+Lemma pad_noop {V} h w n (img : Z -> Z -> V) : 0 <= n -> h mod 2 ^ n = 0 -> w mod 2 ^ n = 0 ->
+  pad_image_for_pyramid h w n img = ((h, w), img).
+Proof.
+  intros Hn Eh Ew. unfold pad_image_for_pyramid. replace (needs_pad h w n) with false; [reflexivity|].
+  symmetry. apply needs_pad_false_iff; auto.
+Qed.
+
+(* every output pixel of the code's padding is a pixel of the input, for EVERY image size *)
+Lemma pad_values_from_input {V} h w n (img : Z -> Z -> V) : 0 <= n -> 1 <= h -> 1 <= w ->
+  let '((H, W), f) := pad_image_for_pyramid h w n img in
+  forall i j, 0 <= i < H -> 0 <= j < W -> exists i' j', 0 <= i' < h /\ 0 <= j' < w /\ f i j = img i' j'.
+Proof.
+  intros Hn Hh Hw. pose proof (pad_multiple h n Hn) as [_ [Rh _]]. pose proof (pad_multiple w n Hn) as [_ [Rw _]].
+  unfold pad_image_for_pyramid. destruct (needs_pad h w n).
+  - cbv zeta. intros i j Hi Hj. exists (src_index (reflect_ok h w n) h i), (src_index (reflect_ok h w n) w j).
+    destruct (reflect_ok h w n) eqn:Er; cbn [src_index].
+    + unfold reflect_ok in Er. apply andb_true_iff in Er. rewrite !Z.ltb_lt in Er.
+      split; [apply refl_range; lia|]. split; [apply refl_range; lia|]. reflexivity.
+    + split; [apply edge_range; lia|]. split; [apply edge_range; lia|]. reflexivity.
+  - intros i j Hi Hj. exists i, j. auto.
+Qed.
+
+(* ---------- regression: reflection only.  It returned an image exactly for sides above 2^(n-1), and the
+   repaired function agrees with it there *)
+Lemma reflect_only_defined_iff {V} h w n (img : Z -> Z -> V) : 0 <= n -> 1 <= h -> 1 <= w ->
+  (pad_image_for_pyramid_reflect_only h w n img <> None <-> 2 ^ n < 2 * h /\ 2 ^ n < 2 * w).
+Proof.
+  intros Hn Hh Hw. pose proof (pad_multiple h n Hn) as [_ [Rh _]]. pose proof (pad_multiple w n Hn) as [_ [Rw _]].
+  unfold pad_image_for_pyramid_reflect_only, pad_with. destruct (needs_pad h w n) eqn:Enp.
+  - unfold reflection_pad2d, pad_tuple.
+    destruct ((0 <=? 0) && (0 <=? pad_amount w n) && (0 <=? 0) && (0 <=? pad_amount h n) && (0 <? w)
+              && (pad_amount w n <? w) && (0 <? h) && (pad_amount h n <? h)) eqn:E.
+    + rewrite !andb_true_iff, !Z.ltb_lt in E. split; [intros _|intros _; discriminate].
+      split; [apply (pad_amount_lt_iff h n Hn Hh)|apply (pad_amount_lt_iff w n Hn Hw)]; tauto.
+    + split; [congruence|]. intros [Lh Lw]. exfalso.
+      apply (pad_amount_lt_iff h n Hn Hh) in Lh. apply (pad_amount_lt_iff w n Hn Hw) in Lw.
+      assert (T : (0 <=? 0) && (0 <=? pad_amount w n) && (0 <=? 0) && (0 <=? pad_amount h n) && (0 <? w)
+              && (pad_amount w n <? w) && (0 <? h) && (pad_amount h n <? h) = true).
+      { rewrite !andb_true_iff, !Z.leb_le, !Z.ltb_lt. lia. }
+      congruence.
+  - split; [intros _|intros _; discriminate].
+    apply (needs_pad_false_iff h w n Hn) in Enp. destruct Enp as [Eh Ew]. pose proof (pow_pos n Hn).
+    apply Z.mod_divide in Eh; [|lia]. apply Z.mod_divide in Ew; [|lia].
+    destruct Eh as [a ->]. destruct Ew as [b ->].
+    set (P := 2 ^ n) in *. assert (1 <= a) by nia. assert (1 <= b) by nia. split; nia.
+Qed.
+
+Lemma reflect_only_agrees {V} h w n (img : Z -> Z -> V) S f :
+  pad_image_for_pyramid_reflect_only h w n img = Some (S, f) ->
+  fst (pad_image_for_pyramid h w n img) = S /\ forall i j, snd (pad_image_for_pyramid h w n img) i j = f i j.
+Proof.
+  unfold pad_image_for_pyramid_reflect_only, pad_with, pad_image_for_pyramid. destruct (needs_pad h w n).
+  - unfold reflection_pad2d, pad_tuple.
+    destruct ((0 <=? 0) && (0 <=? pad_amount w n) && (0 <=? 0) && (0 <=? pad_amount h n) && (0 <? w)
+              && (pad_amount w n <? w) && (0 <? h) && (pad_amount h n <? h)) eqn:E; [|discriminate].
+    rewrite !andb_true_iff, !Z.ltb_lt in E. intros Ex. injection Ex as ES Ef. subst S f. cbn [fst snd]. split.
+    + f_equal; lia.
+    + intros i j. replace (reflect_ok h w n) with true.
+      2:{ symmetry. unfold reflect_ok. rewrite andb_true_iff, !Z.ltb_lt. tauto. }
+      cbn [src_index]. rewrite !Z.sub_0_r. reflexivity.
+  - intros Ex. injection Ex as ES Ef. subst S f. split; reflexivity.
+Qed.
+
+Lemma reflect_only_raises_witness :
+  pad_image_for_pyramid_reflect_only 1 1 1 (fun _ _ => 7) = None /\
+  fst (pad_image_for_pyramid 1 1 1 (fun _ _ => 7)) = (2, 2) /\ snd (pad_image_for_pyramid 1 1 1 (fun _ _ => 7)) 1 1 = 7.
+Proof. vm_compute. auto. Qed.
 
 (* the former tuple (0, 0, dh, dw): a 5 x 7 image, 2 levels -> 9 x 7, content moved down by 3 *)
 Lemma legacy_tuple_witness :
@@ -172,8 +213,6 @@ Lemma legacy_tuple_witness :
   end.
 Proof. vm_compute. repeat split; discriminate. Qed.
 
-(* the former tuple meets the property only where nothing had to be padded at all,
-   or where both deficits coincide with ... : stated for the width clause *)
 Lemma legacy_width_never_padded {V} h w n (img : Z -> Z -> V) H W f :
   pad_image_for_pyramid_legacy h w n img = Some ((H, W), f) -> W = w.
 Proof.
